@@ -343,3 +343,83 @@ def run(prog: Program, res: Result) -> None:  # noqa: PLR0912, PLR0915
     from checks.shared import check_presence_by_key
 
     check_presence_by_key(prog, res, "C01.R8")
+
+    res.rule("C01.R10", "explicit whitespace control is honoured whatever markup follows the text: Content.parse takes the text's right trim from the left marker of every kind of marker-carrying token (tag, output, comment, raw, `{% liquid %}` lines) - otherwise `{%- liquid …` trims nothing while `{%- echo …` does, and layout changes the output (shared with C18.R3)")
+    from checks.shared import check_content_right_trim
+
+    check_content_right_trim(prog, res, "C01.R10")
+
+    # ------------------------------------------------------------------ R9 slice bounds computed by subtraction
+    res.rule("C01.R9", "a slice bound computed by subtracting run-time quantities (`x[: n - k]`) is clamped at zero or its sign is decided by a dominating comparison: Python reads a negative bound as 'from the end', which no Liquid filter means (`truncate: 2` with the three-character ellipsis must cut to nothing, not to all but the last character)")
+    _slice_bound_rule(prog, res)
+
+
+_SLICE_POSITIVE = """
+def cut(val, num, end):
+    if len(val) < num:
+        return val
+    return val[: num - len(end)] + end
+"""
+
+
+def _slice_bound_rule(prog: Program, res: Result) -> None:
+    from sa.cfg import CFG
+
+    def sites(fn: ast.AST):  # noqa: ANN202
+        for n in ast.walk(fn):
+            if isinstance(n, ast.Subscript) and isinstance(n.slice, ast.Slice):
+                for bound in (n.slice.lower, n.slice.upper):
+                    if isinstance(bound, ast.BinOp) and isinstance(bound.op, ast.Sub) and not (isinstance(bound.left, ast.Constant) and isinstance(bound.right, ast.Constant)):
+                        yield n, bound
+
+    def decided(fn: ast.AST, sub: ast.Subscript, bound: ast.BinOp, parents) -> str | None:  # noqa: ANN001
+        a, b = norm(bound.left), norm(bound.right)
+        # the position itself (len(x) - k, self.pos - 1: an offset into the very text being sliced) is not a template quantity
+        if isinstance(bound.right, ast.Constant) and ("pos" in a or "start" in a or "stop" in a or "index" in a or a.startswith("len(")):
+            return "cursor / length arithmetic with a constant (lexer positions are kept inside the source by C17)"
+        cfg = CFG(fn)
+        node = next((n for n in cfg.nodes if n.node is not None and n.kind in ("stmt", "test") and any(x is sub for x in ast.walk(n.node))), None)
+        if node is None:
+            return None
+        for t in cfg.nodes:
+            if t.kind != "test" or t.node is None or not isinstance(t.node, ast.Compare) or len(t.node.ops) != 1:
+                continue
+            l, r = norm(t.node.left), norm(t.node.comparators[0])
+            op = type(t.node.ops[0])
+            good = None
+            if (l, r) == (a, b) and op in (ast.GtE, ast.Gt):
+                good = "true"
+            elif (l, r) == (a, b) and op in (ast.Lt,):
+                good = "false"
+            elif (l, r) == (b, a) and op in (ast.LtE, ast.Lt):
+                good = "true"
+            elif (l, r) == (b, a) and op in (ast.Gt,):
+                good = "false"
+            if good is None:
+                continue
+            bad = "false" if good == "true" else "true"
+            via_bad = any(lab == bad and (m is node or node.id in cfg.reachable(m, avoid=lambda x, t=t: x is t)) for m, lab in t.succ)
+            without = node.id in cfg.reachable(cfg.entry, avoid=lambda x, t=t: x is t)
+            if not via_bad and not without:
+                return f"dominated by `{norm(t.node)}`"
+        return None
+
+    pos_fn = ast.parse(_SLICE_POSITIVE).body[0]
+    if sum(1 for s_, b_ in sites(pos_fn) if decided(pos_fn, s_, b_, None) is None) != 1:
+        raise AnalysisError("C01.R9: the positive example (val[: num - len(end)] without a clamp) is no longer reported exactly once")
+    n_fn = n_sites = 0
+    for fi in sorted(prog.all_functions(), key=lambda f: (f.file, f.node.lineno)):
+        n_fn += 1
+        for sub, bound in sites(fi.node):
+            if prog.enclosing_function(fi.module, sub) is not fi:
+                continue
+            n_sites += 1
+            site = f"{fi.file}:{sub.lineno} {fi.qualname}"
+            what = f"`{norm(sub, 70)}`: the bound `{norm(bound)}` cannot be negative"
+            why = decided(fi.node, sub, bound, None)
+            if why:
+                res.ok("C01.R9", site, what, why)
+            else:
+                res.fail("C01.R9", file=fi.file, line=sub.lineno, qualname=fi.qualname, construct=f"{fi.qualname}: slice bound `{norm(bound)}` may be negative", message=f"{fi.qualname} slices with the bound `{norm(bound)}`, a difference that is negative whenever `{norm(bound.right)}` exceeds `{norm(bound.left)}`: Python then counts from the end of the text (`'abcdefgh'[:2 - 3]` is 'abcdefg'), so the filter returns more text, not less", what=what)
+    res.ok("C01.R9", "liquid2/**", f"{n_fn} functions scanned, {n_sites} slice bound(s) computed by subtraction", "every such bound is clamped with max(…, 0) (then it is not a bare subtraction), guarded, or cursor arithmetic")
+    res.floor("C01.R9", "functions scanned for subtracted slice bounds", n_fn, 900)
